@@ -1,4 +1,5 @@
 """Cache (pickle) the flow."""
+import itertools
 import os
 import pickle
 import sys
@@ -47,6 +48,9 @@ class Cache(object):
         or maliciously constructed data.
         Never unpickle data from an untrusted source.
     """
+
+    # distinguishes temporary files of simultaneous runs
+    _run_numbers = itertools.count()
 
     def __init__(self, filename, recompute=False,
                  method="cPickle", protocol=2):
@@ -209,7 +213,12 @@ class Cache(object):
         # the name of the cache only after the flow was exhausted.
         # Otherwise an interrupted flow would leave a truncated cache,
         # which would be used instead of the complete flow next time.
-        tmp_filename = self._filename + ".part"
+        # The temporary file is private to this run: a generator,
+        # which was abandoned, must not write into the cache
+        # of a later run when it is finally closed.
+        tmp_filename = "{}.{}-{}.part".format(
+            self._filename, os.getpid(), next(self._run_numbers)
+        )
         complete = False
         try:
             with open(tmp_filename, "wb") as f:
